@@ -17,6 +17,10 @@ static void gen_solve(const GenCtx &ctx, Case &c, int viewpct) {
     if (order == 2 && m < n) std::swap(m, n);
   }
   int w = g::wpick<int>({{4, g::dim(std::min(capv, 300), {64, 128})}, {1, 1}, {1, g::pick<int>({63, 64, 65})}});
+  if (g::coin(1, 8) && g::ple_recursive_shape(ctx, m, n)) {
+    if (g::coin(1, 2)) std::swap(m, n);
+    w = std::min(w, 130);
+  }
   c.set("m", m).set("n", n).set("w", w).set("cutoff", g::cutoff());
   g::rankpat(c, "A", m, n);
   g::place(c, "A", viewpct);
@@ -76,6 +80,7 @@ static Verdict exec_solve(const Case &c) {
   x.wr(oa, "A");
   x.wr(ob, "B");
   int rk = rank(A);
+  if (n > 64 && (long)((n + 63) / 64) * m > vf_cfg_ple_cutoff()) x.v.label("recursive-PLE-shape");
   x.v.label(m < n ? "m<n" : m == n ? "m==n" : "m>n");
   x.v.label(solv ? "consistent" : "inconsistent");
   x.v.label("bkind:" + kind);
@@ -102,6 +107,7 @@ static void gen_kernel(const GenCtx &ctx, Case &c, int viewpct) {
   int capv = g::cap(ctx, 20);
   std::vector<int> thr = {64, 128, 256};
   int m = g::dim(capv, thr), n = g::dim(capv, thr);
+  if (g::coin(1, 6)) g::ple_recursive_shape(ctx, m, n);  // the factorisation underneath enters its block-recursive branch
   c.set("m", m).set("n", n).set("cutoff", g::cutoff());
   g::rankpat(c, "A", m, n);
   g::place(c, "A", viewpct);
@@ -138,6 +144,7 @@ static Verdict exec_kernel(const Case &c) {
   }
   bool gaps = false;
   for (int i = 0; i < rk; i++) gaps = gaps || piv[i] != i;
+  if (n > 64 && (long)((n + 63) / 64) * m > vf_cfg_ple_cutoff()) x.v.label("recursive-PLE-shape");
   x.v.label(rk == 0 ? "rank0" : rk == n ? "full-column-rank" : "nontrivial-kernel");
   if (gaps) x.v.label("pivot-gaps");
   x.v.nontrivial = (rk > 0 && rk < n) || gaps;
